@@ -188,19 +188,18 @@ theorem ruleCost_le : ∀ (A : Op R) (f : Fn), deepRule f A = true →
   | tridiag dt n al be ga, f, _ => by
     rw [ruleCost]
     exact leaf_case f _ _ (by rw [factorDense]) (by rw [linSize]) (by simp [arity]) (Or.inr rfl)
-  | sliced A s0 s1, f, _ => by
-    rw [ruleCost]
-    exact leaf_case f _ _ (by rw [factorDense]) (by rw [linSize]) (by simp [arity]) (Or.inr rfl)
-  | concat ax Ms, f, _ => by
-    rw [ruleCost, factorDense, linSize]
-    have := genCost_le f (concat ax Ms)
-    omega
+  | sliced A s0 s1, f, h => by
+    rw [deepRule] at h
+    cases h
+  | concat ax Ms, f, h => by
+    rw [deepRule] at h
+    cases h
   | house dt n v beta, f, _ => by
     rw [ruleCost]
     exact leaf_case f _ _ (by rw [factorDense]) (by rw [linSize]) (by simp [arity]) (Or.inr rfl)
-  | generic A, f, _ => by
-    rw [ruleCost]
-    exact leaf_case f _ _ (by rw [factorDense]) (by rw [linSize]) (by simp [arity]) (Or.inr rfl)
+  | generic A, f, h => by
+    rw [deepRule] at h
+    cases h
 termination_by A => sizeOf A
 decreasing_by
   all_goals simp_wf
